@@ -562,6 +562,8 @@ def _povm_family(ctx, f, sk, group, roles, q_role, a_role, target_desc, target_p
 def _seesaw(ctx, f, who, role_names=("A_out", "B_out", "A_in", "B_in"), group_a="alice_povms", group_b="bob_povms", bob_target=None, check_shape=True):
     m = ctx.model
     sk = Skeleton(m, f)
+    from ..sdp import r_full_range_families
+    r_full_range_families(ctx, f, sk)
     roles = shape_roles(m, f, roles=role_names)
     group = group_a if who == "A" else group_b
     if not sk.probs:
@@ -665,6 +667,8 @@ def _objective_terms(ctx, f, sk, roles, groups, pred_positions=("A_out", "B_out"
 def _nonsignaling(ctx, f, role_names=("A_out", "B_out", "A_in", "B_in")):
     m = ctx.model
     sk = Skeleton(m, f)
+    from ..sdp import r_full_range_families
+    r_full_range_families(ctx, f, sk)
     roles = shape_roles(m, f, roles=role_names)
     if not sk.probs:
         ctx.ob("R-SDP", f, "problem constructed", None, "no cvxpy.Problem", required=False)
@@ -704,6 +708,8 @@ def _nonsignaling(ctx, f, role_names=("A_out", "B_out", "A_in", "B_in")):
 def _npa(ctx, f):
     m = ctx.model
     sk = Skeleton(m, f)
+    from ..sdp import r_full_range_families
+    r_full_range_families(ctx, f, sk)
     roles = shape_roles(m, f)
     if not sk.probs:
         ctx.ob("R-SDP", f, "problem constructed", None, "no cvxpy.Problem", required=False)
